@@ -17,13 +17,17 @@ Definition zlist_eqb (a b : list zi) : bool :=
   Nat.eqb (length a) (length b) && forallb (fun p => zi_eqb (fst p) (snd p)) (combine a b).
 Record query := { qi : ix; qo : obs; qn : npobs }.
 Record case := { ce : op (R:=zi); cm : nat; cn : nat; cfl : flags; cqs : list query }.
+(* LinearOperator.to_dense: the operator applied to an identity, from the left when 8*rows < cols *)
+Definition to_dense_code (s : op (R:=zi)) : arr (R:=zi) :=
+  let m := fst (shape s) in let n := snd (shape s) in
+  if (8 * m <? n)%nat then rmatmat s (mkarr m m eye) else matmat s (mkarr n n eye).
 Definition check_model (c : case) (q : query) : bool :=
   match getitem (cfl c) (ce c) (qi q), qo q with
   | Err a, OErr b => err_eqb a b
   | Scalar x, OScalar y => zi_eqb x y
   | Vec l, OVec l' => zlist_eqb l l'
   | SubOp s, OOp m n D k X Y =>
-      Nat.eqb (fst (shape s)) m && Nat.eqb (snd (shape s)) n && arr_eqb_mn (mkarr m n (den s)) m n D
+      Nat.eqb (fst (shape s)) m && Nat.eqb (snd (shape s)) n && arr_eqb_mn (to_dense_code s) m n D
       && arr_eqb_mn (matmat s (of_list_mn n k X)) m k Y
   | _, _ => false
   end.
